@@ -393,7 +393,7 @@ def _check_registry(h, op):
   for d in sorted(set(exp) | set(real) | set(h.tainted), key=lambda x: (x is None, x or 0)):
     r = real.get(d)
     e = exp.get(d)
-    ok = (r is None and e is None) or (e is not None and r in e[1])
+    ok = (r is None and (e is None or e[2])) or (e is not None and r in e[1])
     if any(c.m.unjudged and c.m.dpid == d for c in h.cs):
       continue
     if d in h.tainted:
@@ -412,9 +412,6 @@ def _check_registry(h, op):
         stage = "announced" if a.m.up else "half-handshaken"
         out.fail("registry", "dpid %#x: disconnecting/closing connection %d (%s) removed the registry entry of live connection %d (op %r)" % (
             d, a.idx, stage, p, op), cause="live-connection-unregistered-by-another-connections-disconnect")
-      elif p is not None and p in acted and p != e[0].idx:
-        out.fail("registry", "dpid %#x: connection %d went away; connection %d is live and fully handshaken but the registry has no entry for the dpid (op %r)" % (
-            d, p, e[0].idx, op), cause="no-fallback-to-older-live-connection")
       else:
         out.fail("registry", "dpid %#x: live fully-handshaken connection %d is not in the registry (op %r)" % (d, e[0].idx, op),
                  cause="live-connection-missing")
@@ -450,6 +447,9 @@ def _send_to(h, d, op):
     h.out.label("send-on-tainted-dpid")
     return
   writers = [i for i, g in enumerate(got) if g]
+  if exp is not None and exp[2] and h.prev_real.get(dpid) is None:
+    h.out.label("send:only-a-superseded-connection-left (either reading accepted)")
+    exp = None
   if exp is None:
     h.out.label("send:no-connection")
     if r is not False or writers:
@@ -526,6 +526,7 @@ def _run(h, ops):
         continue
       if c.joined:
         h.deliver(c)
+        _settle(h, ["lose-deliver", c.idx])
       if not c.closed:
         if op[2] == "rst":
           c.sock.recv_error = errno.ECONNRESET
@@ -540,6 +541,7 @@ def _run(h, ops):
         continue
       if c.joined:
         h.deliver(c)
+        _settle(h, ["cut-deliver", c.idx])
       if c.closed or c.pending:
         continue
       data, act = h.build(c, op[2])
@@ -571,6 +573,7 @@ def _run(h, ops):
         continue
       if c.joined:
         h.deliver(c)
+        _settle(h, ["disc-deliver", c.idx])
       if c.closed:
         continue
       out.label("loss:disconnect()" + _stage(c))
@@ -592,10 +595,10 @@ def _run(h, ops):
       bad = set(h.tainted)
       out.label("core-DownEvent")
       h.w.core.raiseEvent(h.poxcore.DownEvent())
-      for d, (pref, acc) in snapshot.items():
+      for d, (pref, acc, absent_ok) in snapshot.items():
         if d in bad:
           continue
-        if len(acc) > 1:
+        if len(acc) > 1 or absent_ok:
           # ambiguous 'most recent': follow which one the controller had registered
           for i in sorted(acc):
             if h.cs[i].con.disconnected:
@@ -648,6 +651,10 @@ def _run(h, ops):
   out.label("announced:%d" % sum(1 for c in h.cs if c.m.up))
   if h.tainted:
     out.label("registry-judging-suspended-for-a-dpid")
+  if any(c.m.superseded and c.m.up for c in h.cs):
+    out.label("superseded-connection")
+  if any(ab for (_, _, ab) in h.model.registry().values()):
+    out.label("only-superseded-connection-left-at-end")
   if h.w.deferred.calls:
     raise HarnessError("deferred sender was used")
 
